@@ -157,7 +157,8 @@ def _partition(col, R, fi, reg, repo=None):
                s_.base.args[0].op == "attr" and s_.base.args[0].name == "base" and s_.value is not None and len(s_.value.args) == 2]
         for u in ups:
             d = u.value.args[1]
-            sts += [s_ for s_ in ex.stores if s_.kind == "sub" and s_.base.key() == d.key() and s_.value is not None]
+            accs = {id(x.node) for x in d.walk() if x.op == "dictacc" and x.node is not None}      # the local dictionary as it was filled
+            sts += [s_ for s_ in ex.stores if s_.kind == "sub" and s_.value is not None and (s_.base.key() == d.key() or id(s_.node) in accs)]
     if not sts:
         col.unk(R, fi, f"set_ncomp: rewrite of `{reg}`", "store into the registry not found", node=fi.node)
         return
